@@ -43,6 +43,9 @@ STM = {
     "alterchk": (BASE_T, "ALTER TABLE ONLY Sch.Tbl ADD CONSTRAINT c1 CHECK ( Id > 0 ) ;"),
     "index": (BASE_T, "CREATE UNIQUE INDEX Ix1 ON Sch.Tbl ( Id ASC , Name DESC ) ;"),
     "index2": (BASE_T, "CREATE INDEX ix2 ON Sch.Tbl ( Amount ) ;"),
+    # scripts whose statements are NOT terminated by ';' (a '^' marks a token that starts a new statement, hence a new line)
+    "nosemi": ("", "CREATE TABLE a ( x int , y int ) ^CREATE TABLE b ( k int , m varchar ( 5 ) ) ^CREATE TABLE c ( z int )"),
+    "nosemi2": ("", "CREATE TABLE a ( x int , y int ) ^ALTER TABLE a ADD UNIQUE ( x ) ^CREATE TABLE c ( z int NOT NULL ) ^CREATE INDEX i1 ON c ( z )"),
     "seq": ("", "CREATE SEQUENCE Sch.Sq INCREMENT BY 5 START WITH 10 MINVALUE 1 NO MAXVALUE CACHE 20 NOORDER ;"),
 }
 LINEWORDS = {"CREATE", "ALTER", "DROP", "SET", "GO", "USE", "INSERT", "GRANT", "DELETE"}
@@ -56,9 +59,15 @@ NLQ = re.compile(r"\n[\w]*['\\]*[\w]*'")
 TRANSFORMS = ["crlf", "blank-lines", "trailing-blanks", "tab-indent", "leading-blanks"]
 
 
+def nl_gaps(s):
+    """indices of the tokens that start a new statement of a multi-statement script (the gap before them must hold a line break)"""
+    return {i for i, w in enumerate(s.split()) if w.startswith("^")}
+
+
 def toks(s):
     out = []
     for w in s.split():
+        w = w.lstrip("^")
         if w in "(),;":
             out.append((w, "P"))
         elif w.startswith("'"):
@@ -70,13 +79,16 @@ def toks(s):
     return out
 
 
-def render(tk, gaps, cases):
+def render(tk, gaps, cases, nl=()):
     out = []
     for i, (w, k) in enumerate(tk):
         if k == "K" and i in cases:
             w = CASES[cases[i]](w)
         if i > 0:
-            out.append(gaps.get(i, "" if w == ";" else " "))
+            g = gaps.get(i, "\n" if i in nl else ("" if w == ";" else " "))
+            if i in nl and "\n" not in g:
+                g = "\n"  # a statement start stays at the start of a line whatever the layout
+            out.append(g)
         out.append(w)
     return "".join(out)
 
@@ -115,9 +127,12 @@ def gen_cases(tier):
         for u in UNIFORM:
             cases.append({"kind": "stm", "stm": name, "uniform": u})
         gapdevs = []
+        nl = nl_gaps(s)
         for i in range(1, len(tk)):
             seps = list(SEPS)
-            if tk[i][1] == "P" or tk[i - 1][1] == "P":
+            if i in nl:
+                seps = [x for x in SEPS if "\n" in x and x != "\n"]
+            elif tk[i][1] == "P" or tk[i - 1][1] == "P":
                 seps.append("")
             for sp in seps:
                 gapdevs.append((i, sp))
@@ -156,12 +171,13 @@ def build(case):
     else:
         gaps = {int(k): v for k, v in case["gaps"].items()}
         cs = {int(k): v for k, v in case["cases"].items()}
-    txt = render(tk, gaps, cs)
-    canon = render(tk, {}, {})
+    nl = nl_gaps(s)
+    txt = render(tk, gaps, cs, nl)
+    canon = render(tk, {}, {}, nl)
     # the property's proviso: a statement-level word may not start a continuation line
     skip = False
     for i, sp in gaps.items():
-        if "\n" in sp and tk[i][0].upper() in LINEWORDS:
+        if "\n" in sp and tk[i][0].upper() in LINEWORDS and i not in nl:
             skip = True
     join = "\r\n" if any("\r" in g for g in gaps.values()) else "\n"
     return (pre + join + txt if pre else txt), (pre + "\n" + canon if pre else canon), skip
